@@ -2,7 +2,7 @@
 from .lib import *
 from .cfg import cfg_of, callee_matches
 from .sem import key, dnf_str
-from . import c01
+from . import c01, c03
 
 LEVEL = 'other'
 EXPLANATION = ('Static rule checking: the frames-ahead gate (as an implication, both on the NULL and non-NULL path), the '
@@ -191,5 +191,6 @@ OBLIGATIONS = [
      'load_frame is reachable is guarded by max_prediction != 0.', o3),
     ('C04.O4', 'no prediction in lockstep', 'InputQueue::input is not in the may-call closure of advance_lockstep_frame; its '
      'inputs come from confirmed_inputs; only Confirmed/Disconnected are built there.', o4),
+    ('C04.O6', 'the confirmed frame both gates read is the min over connected players (= C03.O4)', 'see C03.O4', c03.o4),
     ('C04.O5', 'sparse saving off in lockstep', 'P2PSession::new stores sparse_saving = false when max_prediction == 0.', o5),
 ]
